@@ -1274,11 +1274,14 @@ class BufferedWriter(IndexWriter):
         with self.lock:
             ramreader = self._get_ram_reader()
             self._make_ram_index()
+            # (the count belongs to the buffer that was just taken: a document
+            # added from now on goes into the new buffer and is counted anew)
+            bufferedcount = self.bufferedcount
+            self.bufferedcount = 0
 
-        if self.bufferedcount:
+        if bufferedcount:
             self.writer.add_reader(ramreader)
         self.writer.commit(**self.commitargs)
-        self.bufferedcount = 0
 
         if restart:
             self.writer = self.index.writer(**self.writerargs)
